@@ -42,13 +42,18 @@ ASSUMPTIONS = ['one Session, each file opened once; operations address frames an
                'field handles observed are those ever present in a catalogue']
 TECHNIQUE = ('Coq proof (state-machine invariant over a Gallina model of the dual Python/HDF5 catalogue) + exhaustive '
              'short-history differential correspondence against the real code on real HDF5 files')
-LEVEL_TEXT = ('Theorems in coq/Props/C15.v prove, for all histories of the modelled operations and all names, that the '
-              'model of the (repaired) code keeps the in-memory catalogue equal to the HDF5 link tables, never changes '
-              'stored field data, renames by simultaneous substitution or not at all, and invalidates moved handles; '
-              'the model is tied to the code by running both on the same generated histories and comparing every '
-              'intermediate observation.')
-LEVEL_NOTE = ('Trusted: Coq kernel, extraction, harness, the h5py link semantics written into the model. The original '
-              'code is refuted by two vm_compute witnesses (F-C15a, F-C15b).')
+LEVEL_TEXT = ('Theorems in coq/Props/C15.v prove, for all histories (any length, any names, failing operations '
+              'included) of the 18 modelled operations, that the model of the repaired code keeps the in-memory '
+              'catalogue equal to the HDF5 link tables at both levels (state invariant Inv; verdict chk_inv true in every '
+              'reachable state), that a reopen finds the same types and data, that no operation changes the type or data '
+              'of an existing field, that rename is simultaneous substitution or no change at all (the two passes of h5 '
+              'moves cannot fail after the clash check; get_unique_name terminates), that handles follow a rename and '
+              'that a moved handle is invalid; the model is tied to the code by running both on the same generated '
+              'histories on real HDF5 files and comparing every intermediate observation.')
+LEVEL_NOTE = ('Trusted: Coq kernel, extraction, harness, the h5py link semantics written into the model. The code as '
+              'found is refuted by vm_compute witnesses (F-C15a, F-C15b) replayed on the real code. The observation-level '
+              'forms of the rename / move / reopen verdicts are checked by the correspondence run, their state-level '
+              'content is proved (c15_trace_inv_data_partial says what is lifted).')
 
 _ex = None
 
